@@ -80,6 +80,7 @@ type Interp struct {
 	curPos    token.Pos
 	onceDone  map[*Value]bool
 	ownInit   bool
+	pools     map[*Value][]Value
 	permCache map[string][]int
 	objIDs    map[interface{}]uint64
 	stubs     map[string]bool
@@ -1208,8 +1209,12 @@ func (in *Interp) callBuiltin(caller *frame, fn *ssa.Builtin, args []Value) Valu
 			if nc < len(s)+len(tail) {
 				nc = len(s) + len(tail)
 			}
+			// a new backing array: struct and array elements are copied by value (a pointer into
+			// the old array must not alias the new one)
 			ns := make([]Value, len(s), nc)
-			copy(ns, s)
+			for i := range s {
+				ns[i] = copyVal(s[i])
+			}
 			s = ns
 		}
 		if in.frozen != nil && len(tail) > 0 && cap(s) > len(s) {
